@@ -102,12 +102,14 @@ async def rescan_env_vars(workflow: Workflow, reporter: ReporterClient):
 
     # One step may use several changed variables, so it is collected only once.
     steps_to_rerun = {}
+    changed_uses = []
     reported_names = set()
     for node_i, label, name, old_value in env_var_uses:
         new_value = os.getenv(name)
         if new_value == old_value:
             continue
         steps_to_rerun[node_i] = Step(workflow, node_i, label)
+        changed_uses.append((new_value, node_i, name))
         if name not in reported_names:
             reported_names.add(name)
             old_fmt = fmt_env_value(old_value)
@@ -118,6 +120,13 @@ async def rescan_env_vars(workflow: Workflow, reporter: ReporterClient):
         async with workflow.db:
             for step in steps_to_rerun.values():
                 workflow.mark_step_pending(step)
+            # Record the value that made the step pending.
+            # The stored value is otherwise only written when the step is defined,
+            # so a variable that changes and later changes back to the value seen at definition
+            # time would go unnoticed, although the step ran with the value in between.
+            workflow.db.executemany(
+                "UPDATE env_var SET value = ? WHERE node = ? AND name = ?", changed_uses
+            )
 
 
 async def rescan_files(workflow: Workflow, reporter: ReporterClient, builder: Builder):
